@@ -4,7 +4,6 @@ import (
 	"encoding/json"
 
 	"github.com/nyaruka/gocommon/jsonx"
-	"github.com/nyaruka/gocommon/stringsx"
 	"github.com/nyaruka/goflow/assets"
 	"github.com/nyaruka/goflow/envs"
 	"github.com/nyaruka/goflow/excellent/types"
@@ -45,7 +44,7 @@ func (m *FieldModifier) Apply(eng flows.Engine, env envs.Environment, sa flows.S
 
 	// truncate text value if necessary
 	if newValue != nil {
-		newValue.Text = types.NewXText(stringsx.Truncate(newValue.Text.Native(), eng.Options().MaxFieldChars))
+		newValue.Text = types.NewXText(utils.Truncate(newValue.Text.Native(), eng.Options().MaxFieldChars))
 	}
 
 	if !newValue.Equals(oldValue) {
